@@ -7,6 +7,8 @@ C15 — the command-line layer of `bin/martinize2` in front of `ApplyRubberBand`
     if args.to_ff.startswith("elnedyn"): args.elastic = True
     if args.elastic: <choice of the domain criterion from args.rb_unit, of the selector from
                       args.rb_selection, construction of vermouth.ApplyRubberBand(...)>
+                     rubber_band_processor.run_system(system)
+                     vermouth.NameMolType(deduplicate=not args.keep_duplicate_itp, molname=args.molname).run_system(system)
 
 Strings are lists of characters.  `pyInt` is Python's `int(str)` for ASCII strings (base 10): surrounding
 white space (C `isspace`), an optional sign, decimal digits with single underscores between digits.
@@ -131,6 +133,8 @@ structure CliArgs where
   ermd : Option (List Char)
   eb : Option (List Char)
   eunit : Option (List Char)
+  sep : Bool := false                       -- `-sep` (args.keep_duplicate_itp)
+  molname : Option (List Char) := none      -- `-name` (args.molname), default "molecule"
   deriving Inhabited
 
 /-- the `default=` of the options (extracted from the source on every run: `Generated/C15Cli.lean`) -/
@@ -192,5 +196,24 @@ def cliBuild (a : CliArgs) : CliResult :=
       match unitDomain u with
       | none => .valueError (u = .errFaulty)
       | some dom => .processor (unitMerges u) a.eb.isNone (cliProc a rmd dom)
+
+/-! ### what the `if args.elastic:` block does to the system, in order -/
+
+def dfltMolname : List Char := "molecule".toList
+
+inductive CliEvent where
+  | mergeAll                                          -- vermouth.MergeAllMolecules().run_system(system)
+  | network (p : Proc)                                -- rubber_band_processor.run_system(system)
+  | nameTypes (dedup : Bool) (molname : List Char)    -- vermouth.NameMolType(deduplicate, molname).run_system(system)
+  deriving DecidableEq, Inhabited
+
+/-- the `run_system` calls of the block, in the order of the source: the merge (for `-eunit all`), the network on
+every molecule, and then the molecule types are assigned AGAIN (molecules that shared a type before may carry
+different networks now; one ITP is written per type) -/
+def cliEvents (a : CliArgs) : List CliEvent :=
+  match cliBuild a with
+  | .processor m _ p =>
+      (if m then [.mergeAll] else []) ++ [.network p, .nameTypes (!a.sep) (a.molname.getD dfltMolname)]
+  | _ => []
 
 end C15
